@@ -6,6 +6,7 @@ verus! {
 //@ default-tags C10
 //@ verus-flags --rlimit 60
 //@ compile-run C10,C15 table_wf\(TLDList\) checker says: true
+//@ compile-run C10 rules of public_suffix_list.dat in the table: true
 //@ include ../_common/str_prelude.rs
 //@ source types public-suffix/src/types.rs
 //@ source psl public-suffix/src/lib.rs
@@ -232,14 +233,151 @@ pub fn check_table<T: Table>() -> (ok: bool)
     }
     true
 }
+// ---- the table against the rule list of public_suffix_list.dat (C10, first sentence).
+// A rule is (kind, labels right to left): kind 0 = normal rule, 1 = wildcard rule `*.name`, 2 = exception rule `!name`.
+// `node_at`: the node reached from the sibling range [lo, hi) by matching the labels one by one (the trie walk of the lookup, without
+// the suffix bookkeeping).  `has_rule`: that node exists and carries the mark of the rule's kind: node type normal / exception, or
+// the wildcard bit on its children entry.  `rule_ends(n)`: how many rule marks the first n nodes carry.
+// If every rule of the list is in the table, the rules are pairwise different and the table carries exactly as many marks as the
+// list has rules, then (the table being a tree: argument in DESIGN.md 0.4, C10) the rules of the table are exactly those of the list.
+pub trait RuleList { const RULES: &'static [(u8, &'static [&'static str])]; }
+pub open spec fn labels_view(l: Seq<&'static str>) -> Seq<Seq<u8>> { Seq::new(l.len(), |i: int| sb(l[i])) }
+pub open spec fn node_at<T: Table>(labels: Seq<Seq<u8>>, lo: int, hi: int) -> Option<int>
+    decreases labels.len()
+{
+    if labels.len() == 0 { None } else {
+        match find_spec::<T>(labels[0], lo, hi) {
+            None => None,
+            Some(f) => if labels.len() == 1 { Some(f) } else { node_at::<T>(labels.drop_first(), c_lo::<T>(n_child::<T>(f)), c_hi::<T>(n_child::<T>(f))) },
+        }
+    }
+}
+pub open spec fn has_rule<T: Table>(kind: u8, labels: Seq<Seq<u8>>) -> bool {
+    match node_at::<T>(labels, 0, T::NUM_TLD as int) {
+        None => false,
+        Some(n) => 0 <= n < T::NODES@.len() && (
+            if kind == 0 { c_type::<T>(n_child::<T>(n)) == T::NODE_TYPE_NORMAL }
+            else if kind == 2 { c_type::<T>(n_child::<T>(n)) == T::NODE_TYPE_EXCEPTION }
+            else { c_wild::<T>(n_child::<T>(n)) }),
+    }
+}
+pub open spec fn marks_of<T: Table>(i: int) -> int {
+    (if c_type::<T>(n_child::<T>(i)) == T::NODE_TYPE_NORMAL || c_type::<T>(n_child::<T>(i)) == T::NODE_TYPE_EXCEPTION { 1int } else { 0int })
+        + (if c_wild::<T>(n_child::<T>(i)) { 1int } else { 0int })
+}
+pub open spec fn rule_ends<T: Table>(n: int) -> int
+    decreases n
+{
+    if n <= 0 { 0 } else { rule_ends::<T>(n - 1) + marks_of::<T>(n - 1) }
+}
+/// Verified checker, part 2: every rule of the list is a rule of the table.  Returns the index of the first rule that is not
+/// (the rule list's length if all are).
+pub fn check_rules<T: Table, R: RuleList>() -> (bad: usize)
+    requires table_wf::<T>(),
+    ensures bad <= R::RULES@.len(),
+        bad == R::RULES@.len() ==> forall|i: int| 0 <= i < R::RULES@.len() ==> has_rule::<T>(#[trigger] R::RULES@[i].0, labels_view(R::RULES@[i].1@)),
+{
+    proof { assert(forall|n: u32| n < 32 ==> (1u32 << n) >= 1) by(bit_vector); }
+    let p = ListProvider::<T>::new();
+    let mut i: usize = 0;
+    while i < R::RULES.len()
+        invariant table_wf::<T>(), i <= R::RULES@.len(), forall|n: u32| n < 32 ==> (1u32 << n) >= 1,
+            forall|k: int| 0 <= k < i ==> has_rule::<T>(#[trigger] R::RULES@[k].0, labels_view(R::RULES@[k].1@)),
+        decreases R::RULES@.len() - i,
+    {
+        let kind = R::RULES[i].0;
+        let labels = R::RULES[i].1;
+        let ghost lv = labels_view(labels@);
+        if labels.len() == 0 { return i; }
+        let mut lo: u32 = 0;
+        let mut hi: u32 = T::NUM_TLD;
+        let mut j: usize = 0;
+        let mut node: usize = 0;
+        proof { assert(lv.subrange(0, lv.len() as int) =~= lv); }
+        // invariant of the walk: the node the whole rule reaches is the node its remaining labels reach from [lo, hi)
+        while j < labels.len()
+            invariant table_wf::<T>(), i < R::RULES@.len(), j <= labels@.len(), labels@.len() > 0, lv == labels_view(labels@), forall|n: u32| n < 32 ==> (1u32 << n) >= 1,
+                lo <= hi <= T::NODES@.len(), sorted_range::<T>(lo as int, hi as int),
+                j < labels@.len() ==> node_at::<T>(lv, 0, T::NUM_TLD as int) == node_at::<T>(lv.subrange(j as int, lv.len() as int), lo as int, hi as int),
+                j == labels@.len() ==> node_at::<T>(lv, 0, T::NUM_TLD as int) == Some(node as int) && node < T::NODES@.len(),
+            decreases labels@.len() - j,
+        {
+            let ghost rest = lv.subrange(j as int, lv.len() as int);
+            match p.find(labels[j], lo, hi) {
+                None => { return i; }
+                Some(f) => {
+                    proof {
+                        assert(rest[0] == sb(labels@[j as int]));
+                        lemma_find_spec_some::<T>(rest[0], lo as int, hi as int, f as int);
+                        assert(rest.drop_first() =~= lv.subrange(j as int + 1, lv.len() as int));
+                    }
+                    let x = T::NODES[f];
+                    let child = (((x >> (T::NODES_BITS_TEXT_OFFSET + T::NODES_BITS_TEXT_LENGTH)) >> T::NODES_BITS_ICANN) & ((1 << T::NODES_BITS_CHILDREN) - 1)) as usize;
+                    let cu = T::CHILDREN[child];
+                    node = f;
+                    lo = cu & ((1 << T::CHILDREN_BITS_LO) - 1);
+                    hi = (cu >> T::CHILDREN_BITS_LO) & ((1 << T::CHILDREN_BITS_HI) - 1);
+                    j += 1;
+                }
+            }
+        }
+        let x = T::NODES[node];
+        let child = (((x >> (T::NODES_BITS_TEXT_OFFSET + T::NODES_BITS_TEXT_LENGTH)) >> T::NODES_BITS_ICANN) & ((1 << T::NODES_BITS_CHILDREN) - 1)) as usize;
+        let cu = T::CHILDREN[child];
+        let ty = ((cu >> T::CHILDREN_BITS_LO) >> T::CHILDREN_BITS_HI) & ((1 << T::CHILDREN_BITS_NODE_TYPE) - 1);
+        let wild = ((((cu >> T::CHILDREN_BITS_LO) >> T::CHILDREN_BITS_HI) >> T::CHILDREN_BITS_NODE_TYPE) & ((1 << T::CHILDREN_BITS_WILDCARD) - 1)) != 0;
+        let ok = if kind == 0 { ty == T::NODE_TYPE_NORMAL } else if kind == 2 { ty == T::NODE_TYPE_EXCEPTION } else { wild };
+        if !ok { return i; }
+        i += 1;
+    }
+    i
+}
+/// Verified checker, part 3: the number of rule marks the table carries.
+pub fn count_rule_ends<T: Table>() -> (n: usize)
+    requires table_wf::<T>(),
+    ensures n == rule_ends::<T>(T::NODES@.len() as int),
+{
+    proof { assert(forall|n: u32| n < 32 ==> (1u32 << n) >= 1) by(bit_vector); }
+    let mut i: usize = 0;
+    let mut n: usize = 0;
+    while i < T::NODES.len()
+        invariant table_wf::<T>(), i <= T::NODES@.len(), n == rule_ends::<T>(i as int), n <= 2 * i, forall|n: u32| n < 32 ==> (1u32 << n) >= 1,
+        decreases T::NODES@.len() - i,
+    {
+        let x = T::NODES[i];
+        let child = (((x >> (T::NODES_BITS_TEXT_OFFSET + T::NODES_BITS_TEXT_LENGTH)) >> T::NODES_BITS_ICANN) & ((1 << T::NODES_BITS_CHILDREN) - 1)) as usize;
+        let cu = T::CHILDREN[child];
+        let ty = ((cu >> T::CHILDREN_BITS_LO) >> T::CHILDREN_BITS_HI) & ((1 << T::CHILDREN_BITS_NODE_TYPE) - 1);
+        let wild = ((((cu >> T::CHILDREN_BITS_LO) >> T::CHILDREN_BITS_HI) >> T::CHILDREN_BITS_NODE_TYPE) & ((1 << T::CHILDREN_BITS_WILDCARD) - 1)) != 0;
+        if ty == T::NODE_TYPE_NORMAL || ty == T::NODE_TYPE_EXCEPTION { n += 1; }
+        if wild { n += 1; }
+        i += 1;
+    }
+    n
+}
+// ---- the rule list of the .dat shipped in /repo, parsed on this run (replay crate entry psl-rules; ASCII form through the idna crate)
+//@ generated psl-rules $REPO/public-suffix/public_suffix_list.dat|$OUT
 // ---- the shipped table: constants extracted from tld_list.rs on every run
 //@ source tld public-suffix/src/tld_list.rs
 //@ extract tld struct TLDList
 //@ extract tld impl Table for TLDList
 //@   external_body_consts TEXT NODES CHILDREN
 pub fn run_table_check() -> (ok: bool) ensures ok ==> table_wf::<TLDList>() { check_table::<TLDList>() }
+pub fn run_rule_check() -> (r: (bool, usize, usize, usize))
+    ensures r.0 ==> (table_wf::<TLDList>() && r.1 == DatRules::RULES@.len()
+        && (forall|i: int| 0 <= i < DatRules::RULES@.len() ==> has_rule::<TLDList>(#[trigger] DatRules::RULES@[i].0, labels_view(DatRules::RULES@[i].1@)))
+        && rule_ends::<TLDList>(TLDList::NODES@.len() as int) == DatRules::RULES@.len())
+{
+    if !check_table::<TLDList>() { return (false, 0, 0, 0); }
+    let bad = check_rules::<TLDList, DatRules>();
+    let marks = count_rule_ends::<TLDList>();
+    let n = DatRules::RULES.len();
+    (bad == n && marks == n, bad, marks, n)
+}
 } // verus!
 fn main() {
     // compiled with `verus --compile` and executed by the check: the verified checker on the real constants
     println!("table_wf(TLDList) checker says: {}", run_table_check());
+    let r = run_rule_check();
+    println!("rules of public_suffix_list.dat in the table: {} (first rule not found: #{} of {}; rule marks in the table: {})", r.0, r.1, r.3, r.2);
 }
